@@ -115,6 +115,15 @@ def main():
     for _ in range(budget):
         k = rnd.randint(2, depth)
         seqs.append(tuple([rnd.choice(starts)] + [rnd.choice(starts if rnd.random() < 0.4 else labels) for _ in range(k - 1)]))
+    # directed: the same value sharded under both configurations on one node, then it leaves the node
+    leave = [l for l in labels if l.startswith(("n1.replace_input", "n2.replace_input", "n1.resize", "a.replace_all", "rename"))]
+    for ni, vname in ((1, "a"), (1, "u"), (1, "b2"), (2, "b"), (2, "x"), (0, "x"), (1, "b")):
+        for ax1, ax2 in ((0, 0), (-1, 0)):
+            s1 = f"n{ni}.shard({vname},tp,axis={ax1},num=2)"
+            s2 = f"n{ni}.shard({vname},pp,axis={ax2},num=2)"
+            for l in leave:
+                seqs.append((s1, s2, l))
+                seqs.append((s2, s1, "rename b", l))
     samples = []
     for seq in seqs:
         evaluations += 1
